@@ -39,6 +39,7 @@ inductive Stmt where
   | setInUse (b : Bool)       -- plain `isInUse_ = b;`
   | call (name : String)      -- a call into the placer (may run callbacks, may throw)
   | scopeGuard                -- from here to the end of the function `isInUse_` is set; cleared on every exit
+  | restoreGuard              -- same, but on every exit `isInUse_` gets back the value it had on entry (re-entrant guard)
   | ret                       -- `return;`
   | assertC (c : Cond)        -- `assert(c);`
   | paramsCheck               -- `params.check();`
